@@ -47,7 +47,7 @@ TRUSTED = [
     "axioms: subset of {propext, Classical.choice, Quot.sound} (audited per theorem on every run)",
     "hand-written model LW.Model.ProcTomo / Tomo tied to the code by this correspondence check",
     "numpy.linalg.pinv (contract: the unique solution of the invertible linear system), numpy.linalg.solve, "
-    "eigh, scipy.linalg.sqrtm (fidelity compared with tolerance 1e-6)",
+    "eigh (also inside state_fidelity / process_fidelity since the repair F28; fidelity compared with tolerance 1e-6)",
     "the projected-gradient optimiser of MLE is NOT modelled: its result is checked against the property's "
     "bound (fidelity >= 0.99, positivity, trace preservation) on every generated case",
     "the implementation's Simulator as the source of noiseless outcome frequencies (C03/C04)",
@@ -423,8 +423,7 @@ def run_case(ctx: Ctx, case: dict) -> list[str]:
 
 
 def report(ctx: Ctx, case: dict, probs: list[str]) -> None:
-    # a problem must reproduce on identical input (the property is deterministic; scipy's sqrtm /
-    # eig occasionally fail transiently under machine load)
+    # a problem must reproduce on identical input in this process (the property is deterministic)
     again = run_case(ctx, case)
     if not again:
         ctx.count("transient_problem_not_reproduced")
